@@ -357,9 +357,10 @@ type runner struct {
 	cops    []string
 	okRes   []bool
 	failed  []bool
-	snap    string // correspondence case frozen at the first divergent reinstate (later passive states depend on file-level leftovers the model does not track)
-	tainted bool   // a reinstate already left the folders different: later reinstates inherit that
-	quiet   bool   // after a known divergence: keep running for the correspondence, stop comparing folders
+	applied []appliedOp // what was actually committed / dropped, with the exact B-tree calls issued
+	snap    string      // correspondence case frozen at the first divergent reinstate (later passive states depend on file-level leftovers the model does not track)
+	tainted bool        // a reinstate already left the folders different: later reinstates inherit that
+	quiet   bool        // after a known divergence: keep running for the correspondence, stop comparing folders
 }
 
 func (r *runner) active() string  { return r.e.Folders[0] }
@@ -468,6 +469,7 @@ func (r *runner) runOp(i int, op histOp) {
 			b = bt
 		}
 	}
+	var calls []btCall
 	newRef := map[int]string{}
 	for k, v := range r.ref[op.Store] {
 		newRef[k] = v
@@ -478,6 +480,7 @@ func (r *runner) runOp(i int, op histOp) {
 				continue
 			}
 			v := fmt.Sprintf("v%d.%d", k, i)
+			calls = append(calls, btCall{"add", k, v})
 			if ok, err := b.Add(ctx, k, v); err == nil && ok {
 				newRef[k] = v
 			} else if err != nil {
@@ -489,6 +492,7 @@ func (r *runner) runOp(i int, op histOp) {
 				continue
 			}
 			v := fmt.Sprintf("u%d.%d", k, i)
+			calls = append(calls, btCall{"upd", k, v})
 			if ok, err := b.Update(ctx, k, v); err == nil && ok {
 				newRef[k] = v
 			} else if err != nil {
@@ -499,6 +503,7 @@ func (r *runner) runOp(i int, op histOp) {
 			if _, ok := newRef[k]; !ok {
 				continue
 			}
+			calls = append(calls, btCall{"rem", k, ""})
 			if ok, err := b.Remove(ctx, k); err == nil && ok {
 				delete(newRef, k)
 			} else if err != nil {
@@ -607,6 +612,7 @@ func (r *runner) runOp(i int, op histOp) {
 	}
 	if committed {
 		r.ref[op.Store] = newRef
+		r.applied = append(r.applied, appliedOp{Store: op.Store, Calls: calls})
 	} else if op.Kind == "rollback" && !existed {
 		delete(r.ref, op.Store)
 	}
@@ -691,6 +697,7 @@ func (r *runner) drop(op histOp) {
 		return
 	}
 	delete(r.ref, op.Store)
+	r.applied = append(r.applied, appliedOp{Store: op.Store, Drop: true})
 	if rmErr != nil && (r.dead || op.Fault != "") {
 		r.res.Count("drop.replicate_error")
 		if !failedNow && !r.dead {
@@ -788,7 +795,18 @@ func runHistory(res *hx.Result, h history, idx int) {
 	}
 	ad := dumpChild(root, "active", h.HashMod)
 	if msg := dumpVsRef(ad, r.ref); msg != "" {
-		r.fail("active-content-wrong", msg)
+		// The naive key->value reference is not the judge of B-tree behaviour (known B-tree defects, e.g. removes with
+		// slot length 2, are other properties' subject).  C27's claim is that faults and replication do not change the
+		// ACTIVE side: compare with an UNREPLICATED twin database on which exactly the same B-tree calls are replayed.
+		res.Count("active.differs_from_naive_reference")
+		td := twinDump(root, h, r.applied)
+		if !td.Equal(ad) {
+			a, _ := json.Marshal(ad)
+			t, _ := json.Marshal(td)
+			r.fail("active-content-wrong", fmt.Sprintf("%s; replicated active side %.300s / unreplicated twin with the same calls %.300s", msg, a, t))
+		} else {
+			res.Count("active.same_as_unreplicated_twin")
+		}
 	}
 	if r.insync && !r.quiet && !r.flag() {
 		res.Count("failover.dump")
@@ -806,6 +824,62 @@ func runHistory(res *hx.Result, h history, idx int) {
 	}
 	res.AddCase(term, h)
 	res.Sample(map[string]any{"history": h, "results": r.okRes, "failed_after": r.failed})
+}
+
+type btCall struct {
+	Op string
+	K  int
+	V  string
+}
+type appliedOp struct {
+	Store string
+	Drop  bool
+	Calls []btCall
+}
+
+// twinDump replays the committed operations (the very same Add/Update/Remove calls) on a plain, unreplicated
+// database with the same slot length and hash modulus and returns its fresh-process dump.
+func twinDump(root string, h history, ops []appliedOp) *dbDump {
+	ctx := context.Background()
+	dir := filepath.Join(root, "twin")
+	os.RemoveAll(dir)
+	e, err := sopx.NewEnv(dir, h.HashMod)
+	if err != nil {
+		return &dbDump{Err: err.Error()}
+	}
+	for _, op := range ops {
+		if op.Drop {
+			// same effect as the replicated drop on the logical content: the store disappears
+			t, _ := e.NewTxn(ctx, sop.ForWriting, time.Minute, "twin", true)
+			t.Begin(ctx)
+			t.Two.GetStoreRepository().Remove(ctx, op.Store)
+			t.Rollback(ctx)
+			continue
+		}
+		t, err := e.NewTxn(ctx, sop.ForWriting, time.Minute, "twin", true)
+		if err != nil {
+			return &dbDump{Err: err.Error()}
+		}
+		t.Begin(ctx)
+		b, err := t.NewStore(ctx, sopx.StoreOpts{Name: op.Store, Slot: h.Slot, Unique: true, InNode: true})
+		if err != nil {
+			return &dbDump{Err: "twin open: " + err.Error()}
+		}
+		for _, c := range op.Calls {
+			switch c.Op {
+			case "add":
+				b.Add(ctx, c.K, c.V)
+			case "upd":
+				b.Update(ctx, c.K, c.V)
+			case "rem":
+				b.Remove(ctx, c.K)
+			}
+		}
+		if err := t.Commit(ctx); err != nil {
+			return &dbDump{Err: "twin commit: " + err.Error()}
+		}
+	}
+	return sopx.DumpFresh(dir, h.HashMod, false)
 }
 
 func dumpVsRef(d *dbDump, ref map[string]map[int]string) string {
